@@ -37,10 +37,14 @@ def check(ctx):
     r04_123(ctx, v)
     r04_4(ctx, v)
     r04_5(ctx, v)
+    r04_7(ctx, v)
     r04_6(ctx, v)
     # "records that traverse a node" is what the index lists: the coverage rules of the index are shared with C03
     from . import c03
 
+    from . import c01 as _c01
+
+    _c01.r01_8(ctx)  # --format on the selected records uses the same graph tables
     irun = c03.index_run(ctx, "R03")
     ctx.analysed_func(irun)
     info = c03.r03_1(ctx, irun)
@@ -349,3 +353,20 @@ def r04_6(ctx, v):
     if raw:
         ok = all(norm(c.args[0]) in (f"{norm(raw[0].target)}.rstrip()", f"{norm(raw[0].target)}.decode('utf-8').rstrip()") for c in ast.walk(raw[0]) if isinstance(c, ast.Call) and isinstance(c.func, ast.Name) and c.func.id == "print")
         ctx.check(ok, "R04.6", run.where(raw[0]), "without selection and format the input lines are reproduced (decoded, right-stripped)", key_of(run, "pass-through"))
+
+
+def r04_7(ctx, v):
+    """The map from a requested node id to its index key is keyed by position 0 of the key (the node id) and maps to the
+    whole key; the offsets are then read from the index under that key."""
+    repo = ctx.repo
+    found = []
+    funcs = [v.run] + [h for c in walk_own(v.run.node) if isinstance(c, ast.Call) for h in [repo.resolve_call(v.run, c)] if h is not None and h.module is v.mod]
+    for f in funcs:
+        for n in walk_own(f.node):
+            if isinstance(n, ast.Assign) and isinstance(n.targets[0], ast.Subscript) and isinstance(n.targets[0].slice, ast.Subscript) and isinstance(n.value, ast.Name) and norm(n.targets[0].slice.value) == n.value.id:
+                found.append((f, n, const_value(n.targets[0].slice.slice)))
+            if isinstance(n, ast.DictComp) and len(n.generators) == 1 and isinstance(n.key, ast.Subscript) and norm(n.key.value) == norm(n.generators[0].target) and norm(n.value) == norm(n.generators[0].target):
+                found.append((f, n, const_value(n.key.slice)))
+    ctx.require_count("R04.7", len(found), 1, v.run.where(), "construction of the node id -> index key map")
+    for f, n, pos in found:
+        ctx.check(pos == 0, "R04.7", f.where(n), "the node-id map is keyed by position 0 of the index key (the node id)", key_of(f, f"id-map-key:{pos}"), position=pos)
